@@ -27,6 +27,12 @@ Theorem C17_builtin_in_fragment : in_fragment builtin = true.
 Proof. exact builtin_in_fragment. Qed.
 Print Assumptions C17_builtin_in_fragment.
 
+(* the three-valued validator the judge uses as reference verdict (unknown at Unsupported nodes) is the validator itself
+   on every schema inside the fragment *)
+Theorem C17_validate3_in_fragment : forall s d, in_fragment s = true -> validate3 s d = Some (validate s d).
+Proof. exact validate3_in_fragment. Qed.
+Print Assumptions C17_validate3_in_fragment.
+
 (* on every document whose annotations are well-formed, every entry point of package schema returns the verdict
    of the shipped schema (ValidateType/Validate, ValidateReader/ReadAndValidate, ValidateFile .json/.yaml/other,
    ValidateData of JSON and of YAML bytes) *)
@@ -48,8 +54,7 @@ Proof. exact encoding_invariant. Qed.
 Print Assumptions C17_encoding_invariant.
 
 (* the defect repaired by fix 6c1c860 (annotation check skipped for JSON bytes) *)
-Theorem C17_encoding_invariant_pinned_refuted :
-  exists d, v_data_json_pinned (CfgSchema builtin) d <> v_data_yaml (CfgSchema builtin) d.
+Theorem C17_encoding_invariant_pinned_refuted : exists c d, v_data_json_pinned c d <> v_data_yaml c d.
 Proof. exact encoding_invariant_pinned_refuted. Qed.
 Print Assumptions C17_encoding_invariant_pinned_refuted.
 
@@ -74,14 +79,17 @@ Proof. exact nop_accepts_unconditionally_refuted. Qed.
 Print Assumptions C17_nop_accepts_unconditionally_refuted.
 
 (* hypotheses are satisfiable and the verdicts are not constant *)
-Example C17_example_accept : annotations_wf good_doc /\ validate builtin good_doc = true.
-Proof. exact good_doc_ok. Qed.
-Example C17_example_reject :
-  validate builtin (DObj [("cdiVersion", DStr "1.0.0"); ("kind", DStr "v/c")]) = false /\
-  validate builtin (DObj [("cdiVersion", DInt 1); ("kind", DStr "v/c"); ("devices", DArr [])]) = false /\
-  validate builtin (doc_with_node (DObj [("path", DStr "/dev/x"); ("uid", DInt 4294967295)])) = true /\
-  validate builtin (doc_with_node (DObj [("path", DStr "/dev/x"); ("uid", DInt 4294967296)])) = false /\
-  validate builtin (doc_with_node (DObj [("path", DStr "/dev/x"); ("major", DFrac 3 2)])) = false /\
-  validate builtin (doc_with_node (DObj [("hostPath", DStr "/dev/x")])) = false /\
-  validate builtin (doc_with_node DNull) = false.
-Proof. exact bad_docs_rejected. Qed.
+Example C17_example_wf : annotations_wf good_doc /\ top_decodable good_doc = true.
+Proof. exact good_doc_wf. Qed.
+Example C17_example_verdicts :
+  validate example_schema (DObj [("path", DStr "/dev/x"); ("uid", DInt 4294967295); ("ratio", DFrac 1 2); ("opts", DArr [DStr "ro"; DNull])]) = true /\
+  validate example_schema (DObj [("uid", DInt 1)]) = false /\
+  validate example_schema (DObj [("path", DInt 1)]) = false /\
+  validate example_schema (DObj [("path", DStr "p"); ("uid", DInt 4294967296)]) = false /\
+  validate example_schema (DObj [("path", DStr "p"); ("uid", DFrac 3 2)]) = false /\
+  validate example_schema (DObj [("path", DStr "p"); ("ratio", DFrac 3 2)]) = false /\
+  validate example_schema (DObj [("path", DStr "p"); ("opts", DArr [DInt 1])]) = false /\
+  validate example_schema (DObj [("path", DStr "p"); ("xy", DBool true)]) = false /\
+  validate example_schema (DObj [("path", DStr "p"); ("x", DStr "s")]) = false /\
+  validate example_schema (DArr []) = false.
+Proof. exact example_verdicts. Qed.
